@@ -116,7 +116,10 @@ func eqHeader(src, dec map[any]any) bool {
 	b, e2 := refcose.GoToNode(dec, gen.Custom)
 	ok := e1 == nil && e2 == nil && bytes.Equal(refcbor.Canon(a), refcbor.Canon(b))
 	if !ok && eqHeaderDebug {
-		fmt.Printf("eqHeader: e1=%v e2=%v\n src %x\n dec %x\n", e1, e2, refcbor.Canon(a), refcbor.Canon(b))
+		fmt.Printf("eqHeader: e1=%v e2=%v\n", e1, e2)
+		if a != nil && b != nil {
+			fmt.Printf(" src %x\n dec %x\n", refcbor.Canon(a), refcbor.Canon(b))
+		}
 	}
 	return ok
 }
